@@ -66,16 +66,20 @@ def _format_link_dest(dest: str) -> str:
     """
     depth = 0
     balanced = True
-    for c in re.sub(r"\\.", "", dest):
+    for c in dest:
         if c == "(":
             depth += 1
         elif c == ")":
             depth -= 1
             if depth < 0:
                 balanced = False
+    # The parser hands us the destination with its backslash escapes resolved: a backslash
+    # that would now escape the next character (or the closing delimiter) is doubled.
+    escaped = re.sub(r"\\(?=[!-/:-@\[-`{-~]|$)", r"\\\\", dest)
     if dest == "" or re.search(r"\s", dest) or not balanced or depth != 0 or dest.startswith("<"):
-        return f"<{dest}>"
-    return dest
+        escaped = escaped.replace("<", "\\<").replace(">", "\\>")
+        return f"<{escaped}>"
+    return escaped
 
 
 def _min_fence_length(code_content: str, fence_char: str = "`") -> int:
